@@ -46,6 +46,17 @@ impl TlfuShadow {
         }
         self.tick();
     }
+    /// canonical shape of the shadow state (for the distinct-states measure)
+    pub fn shape(&self) -> u64 {
+        let mut h = crate::rng::mix(self.w as u64, self.samples as u64);
+        h = crate::rng::mix(h, self.door.len() as u64);
+        let mut cs: Vec<u8> = self.cnt.values().copied().filter(|c| *c > 0).collect();
+        cs.sort_unstable();
+        for c in cs {
+            h = crate::rng::mix(h, c as u64);
+        }
+        h
+    }
     pub fn lower(&self, h: u64) -> u64 {
         (self.door.contains(&h) as u64) + (*self.cnt.get(&h).unwrap_or(&0) as u64)
     }
@@ -195,6 +206,13 @@ pub struct SampledShadow {
 }
 
 impl SampledShadow {
+    pub fn shape(&self) -> u64 {
+        let sum: i64 = self.costs.values().sum();
+        let mut h = crate::rng::mix(self.costs.len() as u64, self.samples as u64);
+        h = crate::rng::mix(h, sum.signum() as u64);
+        h = crate::rng::mix(h, self.costs.values().filter(|c| **c < 0).count() as u64);
+        h
+    }
     pub fn step(&mut self, subj: &mut dyn Subject, op: &Op, val: &Val, post: &Alpha, stats: &mut crate::exec::Stats) -> Vec<(&'static str, String)> {
         let mut errs: Vec<(&'static str, String)> = Vec::new();
         let kh = |s: &dyn Subject, k: u32| s.key_hash(k).unwrap_or(0);
